@@ -484,8 +484,16 @@ class Ref:
                         text = text + self.to_text(self.ev(part['interp'], scope), True, '"')
                 v = text
             attrs.append([n, v, True])
+        entries = []
         for n, e in node.get('attributes', []):
             v = self.ev(e, scope, default_ok=True)
+            if n is None:
+                # attribute dictionary: one entry per key, in the dictionary's order
+                for k in v:
+                    entries.append((k, v[k]))
+            else:
+                entries.append((n, v))
+        for n, v in entries:
             idx = None
             for i, a in enumerate(attrs):
                 if a[0].lower() == n.lower():
